@@ -7,17 +7,17 @@ import (
 )
 
 var profileC04 = []kindW{{"nftissue", 2}, {"nftmint", 4}, {"nftxfer", 2}, {"nftburn", 1}, {"nftsend", 12}, {"flow", 6}, {"round", 8},
-	{"recv", 1}, {"ack", 1}, {"replay", 2}, {"update", 1}, {"mocksend", 1}, {"rules", 1}, {"nftraid", 4}}
+	{"recv", 1}, {"ack", 1}, {"replay", 2}, {"update", 1}, {"mocksend", 1}, {"rules", 3}, {"nftraid", 4}, {"nftforge", 3}, {"restart", 1}}
 
 func TestC04(t *testing.T) {
 	runProp(t, "C04",
-		"case = topology + up to 60 ops: NFT issue/mint/transfer/burn by 3 users per chain with ids shared across classes and chains (strict class alphabet: no '/', not starting with 'nft'), cross-chain sends over direct and relayed routes with valid/invalid/blank receivers, arbitrary delivery order, replays; oracle = (1) global: every live native NFT has exactly one holder = user-held representation (class resolved through the ClassTrace query) or packet in flight, nothing user-held that is not a live native NFT, (2) per step: the token snapshot of the chain changes only as the step allows (send: exactly that token to escrow or burned; delivered receive: exactly one voucher for the named receiver with trail = sender trail + this chain, or escrow release of exactly that identity; error ack on source: exact inverse of the send; everything else: no change); non-trivial = >=2 tokens with the same id in different classes in play AND a voucher sent onward (>=2 hops)",
+		"case = topology + up to 60 ops: NFT issue/mint/transfer/burn by 3 users per chain with ids shared across classes and chains (plain class ids, plus native classes whose id reads like a class path between real chains or carries chain names and '/' in other positions), cross-chain sends over direct and relayed routes with valid/invalid/blank receivers, arbitrary delivery order, replays; oracle = (1) global: every live native NFT has exactly one holder = user-held representation (class resolved through the ClassTrace query) or packet in flight, nothing user-held that is not a live native NFT, (2) per step: the token snapshot of the chain changes only as the step allows (send: exactly that token to escrow or burned; delivered receive: exactly one voucher for the named receiver with trail = sender trail + this chain, or escrow release of exactly that identity; error ack on source: exact inverse of the send; everything else: no change); non-trivial = >=2 tokens with the same id in different classes in play AND a voucher sent onward (>=2 hops)",
 		genWorldCaseAB(profileC04, 2, 4, 12, 60, 7),
 		func(c WorldCase, col *Collector) outcome {
 			s := sim.New(buildWorld(c))
 			ts := sim.NewTokenState("C04")
 			s.Checkers = []func(*sim.Sim, *sim.Step) *sim.Violation{sim.CheckTokens(ts), sim.CheckNFTConservation(ts)}
-			out := runOps(s, append(tokenPreamble(c.N), c.Ops...))
+			out := runOpsKnown(s, append(tokenPreamble(c.N), c.Ops...), col)
 			col.AddLabels(s.Labels)
 			if sameIDDifferentClass(ts) && s.Labels["voucher-sent-on"] > 0 {
 				col.MarkNontrivial(map[string]any{"n": c.N, "trace": tail(s.Trace, 14)})
@@ -39,7 +39,7 @@ func sameIDDifferentClass(ts *sim.TokenState) bool {
 }
 
 var profileC05 = []kindW{{"mtissue", 1}, {"mtmint", 4}, {"mtxfer", 2}, {"mtburn", 1}, {"mtsend", 12}, {"flow", 6}, {"round", 8},
-	{"recv", 1}, {"ack", 1}, {"replay", 2}, {"update", 1}, {"rules", 1}}
+	{"recv", 1}, {"ack", 1}, {"replay", 2}, {"update", 1}, {"rules", 1}, {"restart", 1}}
 
 func TestC05(t *testing.T) {
 	runProp(t, "C05",
@@ -72,7 +72,7 @@ func TestC05(t *testing.T) {
 }
 
 var profileC19 = []kindW{{"nftsend", 8}, {"mtsend", 8}, {"mocksend", 4}, {"flow", 6}, {"round", 6}, {"recv", 6}, {"ack", 6}, {"clean", 3},
-	{"recvclean", 3}, {"replay", 3}, {"update", 1}, {"rules", 2}, {"nftmint", 2}, {"mtmint", 2}, {"nftxfer", 1}, {"hostile", 6}, {"kwack", 1}, {"batch", 5}}
+	{"recvclean", 3}, {"replay", 3}, {"update", 1}, {"rules", 2}, {"nftmint", 2}, {"mtmint", 2}, {"nftxfer", 1}, {"hostile", 6}, {"kwack", 1}, {"batch", 5}, {"nftforge", 2}, {"restart", 1}}
 
 func TestC19(t *testing.T) {
 	runProp(t, "C19",
